@@ -130,10 +130,10 @@ class Gf180Walker(h.HierarchyWalker):
                 raise RuntimeError(msg)
 
         # Map none to default, otherwise leave alone
+        # Note this PDK's devices are selected by type and family alone; it has a single threshold flavor of each.
         mostype = h.MosType.NMOS if params.tp is None else params.tp
         mosfam = h.MosFamily.CORE if params.family is None else params.family
-        mosvth = h.MosVth.STD if params.vth is None else params.vth
-        args = (mostype, mosfam, mosvth)
+        args = (mostype, mosfam)
 
         # Find all the xtors that match the args
         subset = {}
